@@ -7,6 +7,7 @@ TFLite reference kernels evaluated on the SOURCE model (tools/refnet.py)."""
 import collections
 import os
 import random
+import subprocess
 
 import numpy as np
 
@@ -18,6 +19,7 @@ import tflsum
 import vlib
 
 ELEM = {"int8": 1, "uint8": 1, "int16": 2, "int32": 4}
+CASE_TIMEOUT = 1500
 FAMS = ["single:conv@8", "single:dw@8", "single:maxpool@8", "single:avgpool@8", "single:fc@8", "conv_chain", "single:transpose@8",
         "single:add@8", "single:sub@8", "single:mul@8", "single:add_bcast@8", "single:mul_scalar@8", "single:concat@u8", "diamond", "siamese", "single:logistic@8", "single:tanh@8", "single:lrelu@8", "single:hswish@8",
         "single:transpose@8", "single:reshape@8", "single:pad@8", "single:slice@8", "single:concat@8", "conv_chain",
@@ -160,7 +162,10 @@ class Mixed:
         n = 1
         for d in t["shape"]:
             n *= d
-        return n * ELEM.get(t["type"], 4), ELEM.get(t["type"], 4), t["type"] != "uint8" and t["type"] != "bool"
+        es = {"bool": 1, "float32": 4, "int64": 8, "float16": 2}.get(t["type"]) or ELEM.get(t["type"])
+        if es is None:
+            raise refnet.Unsupported("tensor type %s" % t["type"])
+        return n * es, es, t["type"] != "uint8" and t["type"] != "bool"
 
     def put(self, arena, ti, arr):
         off = self.alloc["offsets"][ti]
@@ -214,7 +219,7 @@ class Mixed:
                     return [0]
                 flash = list(n["flash"])
                 flat = self.hdr + [2, 0, 0, len(flash)] + flash + [1, 0, size] + arena + [1, 1, 0, size, 1, len(n["words"])] + n["words"]
-                o = models.run("exec", [flat], exe_name="npuExec", timeout=7200)[0]
+                o = models.run("exec", [flat], exe_name="npuExec", timeout=CASE_TIMEOUT)[0]
                 if o[0] != 1:
                     return [0]
                 arena = list(o[1:1 + size])
@@ -303,14 +308,23 @@ def run(tier):
         import concurrent.futures
         order = sorted(range(len(cases)), key=lambda i: -len(cases[i]))
         with concurrent.futures.ThreadPoolExecutor(max_workers=vlib.NCPU) as ex:
-            done = list(ex.map(lambda i: cases[i]() if callable(cases[i]) else
-                               models.run("exec", [cases[i]], exe_name="npuExec", timeout=7200)[0], order))
+            def one(i):
+                # a network whose interpretation exceeds the per-network time budget is counted as skipped, not as a verdict
+                try:
+                    return cases[i]() if callable(cases[i]) else models.run("exec", [cases[i]], exe_name="npuExec", timeout=CASE_TIMEOUT)[0]
+                except subprocess.TimeoutExpired:
+                    return [-9]
+            done = list(ex.map(one, order))
         outs = [None] * len(cases)
         for i, o in zip(order, done):
             outs[i] = o
-    programs, bad, samples = 0, [], []
+    programs, bad, samples, slow = 0, [], [], []
     kinds = collections.Counter()
     for (r, expect, tol, signed), o in zip(meta, outs):
+        if o[0] == -9:
+            skipped["interpreter: per-network time budget (%d s) exceeded" % CASE_TIMEOUT] += 1
+            slow.append({"net": r.get("net_name"), "ops": r.get("net_desc"), "args": r["job"]["args"][:6], "seed": r["job"]["seed"]})
+            continue
         if o[0] != 1:
             skipped["interpreter: operation outside the modelled subset"] += 1
             if os.environ.get("VERIF_C01_DEBUG"):
@@ -335,7 +349,7 @@ def run(tier):
                        "interpreter or the reference does not model are skipped and counted." % programs,
         "evaluations": len(results), "distinct_nontrivial": len(kinds),
         "rule": "distinct operator sequences among the executed networks; every executed network has at least one NPU operator",
-        "programs_executed": programs, "skipped": dict(skipped), "samples": samples or [{"note": "none"}],
+        "programs_executed": programs, "skipped": dict(skipped), "over_time_budget": slow[:10], "samples": samples or [{"note": "none"}],
     })
     vlib.proof_coverage(res, b, ["coq/hw/NpuExec.v: datapath semantics (accumulate, bias, scale with rounding mode, zero points, clamp), "
                                  "model/MlwDecode.v and model/Reorder.v (validated against the C decoder / encoder by the C07 check)",
